@@ -1,0 +1,10 @@
+//go:build verif
+
+// Contracts for package file, read by /verif/engine (comment-only).
+package file
+
+//@ func file.Error.Bind returns r
+//@   property C04 C13
+//@   requires source != nil
+//@   ensures[returns-receiver] r == e
+//@   assigns obj(e)
